@@ -405,12 +405,16 @@ def ctxOf : List Tree → Option (List Nat)
   | [_, .leaf a] => some a
   | _ => none
 
+/-- `Debug` text of `ExprContext::Load` -/
+def loadText : List Nat := [76, 111, 97, 100]
+
 /-- the `Expr::Tuple` arm of `ConstantOptimizer::fold_expr`, given the already optimised fields:
-    the context field is NOT consulted, as in the Rust code -/
+    `matches!(ctx, ExprContext::Load) && elts.iter().all(|e| e.is_constant_expr())` -/
 def tupleStep (c : OptCfg) (k : Nat) (r : Option Range) (fs' : List Tree) : Tree :=
   if k == c.tuple then
     match eltsOf fs' with
-    | some elts => if elts.all (isConstNode c) then mkConst c r elts else .node k r fs'
+    | some elts =>
+      if ctxOf fs' == some loadText && elts.all (isConstNode c) then mkConst c r elts else .node k r fs'
     | none => .node k r fs'
   else .node k r fs'
 
